@@ -25,7 +25,9 @@ REFUTED = [
 ]
 PARTIAL = [
     "C06_lookup_returns_owner (side condition: no live entity of a kind looked up earlier shares the identifier)",
-    "C06_copy_same_ws_fresh (source registered; Group.copy modelled without children)",
+    "C06_copy_end_to_end (property groups are only checked against the property-group registry: nohold for KPG; Group.copy "
+    "modelled without children)",
+    "C06_refused_create_unchanged (stated for OCreate; data / property-group refusals: C06_refused_creation_rolled_back at constructor level)",
 ]
 TRUSTED = [
     "Coq 8.16.1 kernel + vm_compute (correspondence evaluation, refutation witnesses); no axioms",
@@ -47,11 +49,15 @@ RULE = (
     "children and property groups / groups; non-trivial = a forced identifier collision or a copy happens"
 )
 LEVEL_TEXT = (
-    "Proved in Coq for all histories over two workspaces: per-kind uniqueness of identifiers among live registered instances "
-    "(registry invariant), look-up returns the owner (when no earlier-kind live instance shares the identifier), same-workspace "
-    "copies get fresh identifiers, cross-workspace copies keep free identifiers, one type per class. Refuted with witnesses "
-    "replayed on the code: cross-kind uniqueness, refused creation without side effects. Tie: correspondence of all instances, "
-    "registries (dictionary order) and flat containers after every operation on generated histories with forced collisions."
+    "Proved in Coq for all histories over two workspaces: the registry invariant, per-kind uniqueness of identifiers among live "
+    "registered instances, look-up returns the owner (when no earlier-kind live instance shares the identifier), one type per class "
+    "as an invariant (every live group/object holds the live registered type of its class), children lists only name existing "
+    "instances, the copy rule END TO END for OCopy (entity, data children, property groups: every registered new instance carries a "
+    "brand-new identifier or a source identifier that nobody held in the target workspace; all fresh when the sources hold theirs "
+    "there), and refusal at operation level (OCreate under a live same-kind identifier: Refused, records/registries/file/liveness "
+    "unchanged, with the rollback repair). Refuted with witnesses replayed on the code: cross-kind uniqueness (open), refused "
+    "creation without side effects for the pinned constructor order (repaired). Tie: correspondence of all instances, registries "
+    "(dictionary order) and flat containers after every operation on generated histories with forced collisions; behavioural probe."
 )
 TECHNIQUE = "Coq model of the weak-reference registries + invariant over all histories + differential histories with forced collisions"
 
